@@ -363,9 +363,23 @@ Definition values_longer (a : iarr) : bool :=
   match a with ID d => da_length d <? nlen (da_values d) | _ => false end.
 
 (* tags name the region of a recorded OPEN finding of the faithful model I in which a divergence from S is
-   expected.  Every finding of C07 has been repaired in /repo (see known/C07.json "fixed"): there is no such
-   region any more, every divergence from S is a violation. *)
-Definition tags (a : iarr) (o : top) : list N := [].
+   expected (see known/C07.json):
+   13 = C07-N13: the growing splice fast path (builtin_array.go:451) writes new indices without consulting
+        Array.prototype: an inherited accessor / non-writable element at an index in [length, newLength) is ignored *)
+Definition tags (a : iarr) (o : top) : list N :=
+  match o, a with
+  | OSplice st dc items, ID d =>
+      let len := da_length d in
+      let start := rel st len in
+      let del := match dc with None => len - start | Some z => N.min (Z.to_N (Z.max z 0)) (len - start) end in
+      let newlen := len - del + nlen items in
+      if d_guard d && (len <? newlen) &&
+         existsb (fun p => (len <=? fst p) && (fst p <? newlen) &&
+                           match snd p with EData _ w _ _ => negb w | EAcc _ _ _ _ => true end)
+                 (b_proto (da_base d))
+      then [13] else []
+  | _, _ => []
+  end.
 
 Definition tags_at (c : tcase) (ops : list top) (n : N) : list N :=
   let '(ia, o) := istate_at (initI (c_init c)) ops (N.to_nat n) in
